@@ -109,6 +109,10 @@ class Index:
                 self.payloads[r['ev']] = r['payload']
 
     # ------------------------------------------------------------------ helpers
+    def nonpos_timeout(self, ev: int) -> bool:
+        to = self.mk.get(ev, {}).get('timeout')
+        return to is not None and to <= 0
+
     def v(self, prop: str, clause: str, mech=None, **w) -> None:
         self.V.append({'prop': prop, 'clause': clause, 'mech': mech, 'w': w})
 
@@ -331,6 +335,11 @@ def c01(ix: Index) -> None:
             if n != 1:
                 mech = None
                 res = next((x for x in fin.get(ev, {}).get('results', []) if x['hid'] == f'B{bus}.h{hi}'), None)
+                if n == 0 and ix.nonpos_timeout(ev) and not ix.sc['handlers'][hi].get('kind', 'async').startswith('s') and res is not None and res['err'] == 'TimeoutError':
+                    # the event's timeout is zero or negative: the delivery to an async handler is made and cut by the timeout at
+                    # once, before the coroutine's first step (asyncio.wait_for with a non-positive timeout) - C10's business
+                    ix.C['c01_deliveries_cut_at_once_by_a_nonpositive_timeout'] += 1
+                    continue
                 if n == 0 and res is not None and res['err'] == 'RuntimeError' and _self_recursion_depth(ix, ev, hi) >= 3:
                     mech = 'F2c'
                 ix.v('C01', 'delivery-count', mech, ev=ev, bus=bus, h=hi, n=n, result=res)
@@ -1055,7 +1064,12 @@ def _hang_mech_bus(ix: Index, bus: int, rec: dict | None = None):
     abev = {p['b']['ev'] for p in ab}
     if rec is not None and rec.get('k') == 'idle_hang':
         stuck = set(rec.get('pend') or []) | set(rec.get('started') or [])
-        if stuck and all(e in abev or (ix.desc(e) & abev) for e in stuck):
+        # (an event is 'started' / 'pending' for ever because of its OWN non-terminal results. For an abandoned event that is F5
+        # only where the timeout path's sweep over the timed-out handler's tree did not reach it - the exact coverage rule of
+        # _c10_mech; a swept event ends with terminal results. An event above an abandoned one is stuck through its handler
+        # that awaits the completion signal F5 never sets)
+        fired = _fired_invocations(ix)
+        if stuck and all((e in abev and _c10_mech(ix, e, fired, 'pending') == 'F5') or (ix.desc(e) & abev) for e in stuck):
             return 'F5'
         return 'F14' if ix.has_spawn else None
     fin = ix.final['events']
@@ -1132,6 +1146,13 @@ def c16(ix: Index) -> None:
     for r in ix.R:
         if r['k'] == 'rl_cancel_wait':
             ix.C['c16_runloop_cancels'] += 1
+            if c_at := r.get('cancel_seq'):
+                # (observability: did the cancellation land inside a WAL append of that bus made by the run loop itself?)
+                wb = [q for q in ix.R if q['k'] in ('wal_begin', 'wal_end') and q['bus'] == r['bus'] and q['seq'] < c_at]
+                if wb and wb[-1]['k'] == 'wal_begin':
+                    pb = next((q for q in reversed(ix.R) if q['k'] == 'proc_begin' and q['bus'] == r['bus'] and q['ev'] == wb[-1]['ev'] and q['seq'] < wb[-1]['seq']), None)
+                    if pb is not None and not isinstance(pb['drv'], int):
+                        ix.C['c16_runloop_cancels_inside_its_own_wal_append'] += 1
             # bound: 1 virtual second plus what the handlers cancelled by it needed for their own (awaited) clean-up, nested ones adding up
             c_rec = next((q for q in ix.R if q['seq'] == r.get('cancel_seq')), None)
             slow = False
@@ -1261,7 +1282,21 @@ def c10(ix: Index) -> None:
         if ix.sane and (res is None or res['status'] != 'error'):
             ix.v('C10', 'handler-raised-timeouterror-not-recorded-as-error', None, ev=i['ev'], h=i['h'], result=res)
     fired = fired + [inv for inv in raised_te if inv not in fired]
-    if not fired:
+    # events whose timeout is zero or negative: their async handlers are cut before their first step (no invocation to look at);
+    # the event is 'touched by the cancellation' all the same and must complete, with TimeoutError results for those handlers
+    zero_evs = set()
+    for (ev, bus) in ix.accepted:
+        if ix.nonpos_timeout(ev) and bus not in _stopped_buses(ix):
+            for hi in ix.handlers_for(ev, bus):
+                if ix.sc['handlers'][hi].get('kind', 'async').startswith('s'):
+                    continue
+                zero_evs.add(ev)
+                ix.C['c10_handlers_of_nonpositive_timeout_events'] += 1
+                res = next((q for q in fin.get(ev, {}).get('results', []) if q['hid'] == f"B{bus}.h{hi}"), None)
+                done = any(p['e'] is not None for p in ix.procs_by.get((ev, bus), []))
+                if ix.sane and done and (res is None or res['status'] != 'error' or res['err'] not in ('TimeoutError', 'CancelledError')):
+                    ix.v('C10', 'result-not-timeout-error', None, ev=ev, h=hi, result=res, timeout=ix.mk[ev]['timeout'])
+    if not fired and not zero_evs:
         return
     # (c) remaining handlers of the event still run; the event and every touched event completes
     if ix.sane:
@@ -1296,6 +1331,7 @@ def c10(ix: Index) -> None:
         # events that were open in the drain of a timed-out handler are "touched" too
         for p in abandoned_procs(ix):
             touched.add(p['b']['ev'])
+        touched |= zero_evs
         for ev in sorted(touched):
             f = fin.get(ev)
             if f is None or not any(e == ev for (e, _b) in ix.accepted):
